@@ -23,6 +23,11 @@ var (
 	two256     = new(big.Int).Lsh(big1, 256)
 )
 
+// fataler is what helpers need from *rapid.T or *testing.T.
+type fataler interface {
+	Fatalf(format string, args ...any)
+}
+
 func nullLogger() *log.Logger {
 	l := logrus.New()
 	l.SetOutput(io.Discard)
